@@ -54,7 +54,10 @@ func (s EncScript) Sink() EncSink {
 }
 
 // RunEnc drives e (already constructed or Reset onto sink.W with s.Opts) through the script.
-func (s EncScript) RunEnc(e *jsontext.Encoder, sink EncSink) string {
+func (s EncScript) RunEnc(e *jsontext.Encoder, sink EncSink) string { return s.RunEncR(e, sink, nil) }
+
+// RunEncR is RunEnc recording every error it receives in r (nil: not recorded).
+func (s EncScript) RunEncR(e *jsontext.Encoder, sink EncSink, r *rec) string {
 	var b strings.Builder
 	ioSeen := false
 	for _, st := range s.Steps {
@@ -97,7 +100,7 @@ func (s EncScript) RunEnc(e *jsontext.Encoder, sink EncSink) string {
 			// the (deliberately kept) buffer: only "an I/O error was reported" is part of the result.
 			ioSeen = true
 		default:
-			fmt.Fprintf(&b, "!(%s)", errStr(err))
+			fmt.Fprintf(&b, "!(%s)", r.E(err))
 		}
 	}
 	if s.FailAt > 0 {
@@ -126,21 +129,24 @@ func (s DecScript) Reader() io.Reader {
 }
 
 // RunDec drives d (already constructed or Reset onto s.Reader() with s.Opts) through the script.
-func (s DecScript) RunDec(d *jsontext.Decoder) string {
+func (s DecScript) RunDec(d *jsontext.Decoder) string { return s.RunDecR(d, nil) }
+
+// RunDecR is RunDec recording every error it receives in r (nil: not recorded).
+func (s DecScript) RunDecR(d *jsontext.Decoder, r *rec) string {
 	var b strings.Builder
 	for _, st := range s.Steps {
 		switch st {
 		case 'T':
 			tok, err := d.ReadToken()
 			if err != nil {
-				fmt.Fprintf(&b, "T!(%s) ", errStr(err))
+				fmt.Fprintf(&b, "T!(%s) ", r.E(err))
 			} else {
 				fmt.Fprintf(&b, "T%s:%q ", tok.Kind(), trunc(tok.String(), 40))
 			}
 		case 'V':
 			v, err := d.ReadValue()
 			if err != nil {
-				fmt.Fprintf(&b, "V!(%s) ", errStr(err))
+				fmt.Fprintf(&b, "V!(%s) ", r.E(err))
 			} else {
 				fmt.Fprintf(&b, "V%s ", dig(v))
 			}
@@ -148,7 +154,7 @@ func (s DecScript) RunDec(d *jsontext.Decoder) string {
 			fmt.Fprintf(&b, "P%s ", d.PeekKind())
 		case 'S':
 			if err := d.SkipValue(); err != nil {
-				fmt.Fprintf(&b, "S!(%s) ", errStr(err))
+				fmt.Fprintf(&b, "S!(%s) ", r.E(err))
 			} else {
 				b.WriteString("S+ ")
 			}
